@@ -337,7 +337,19 @@ func observe(c *fw.Ctx, cs *Case, path string) []failure {
 			sort.Strings(gs)
 			sort.Strings(ws)
 			if !reflect.DeepEqual(gs, ws) {
-				add("text-tokens", "Text(): tokens lost, repeated or invented: %s", diffTokens(want, got))
+				// A token drawn by two show operators is two fragments; the column
+				// heuristics may send them to different places (in-page order is not
+				// this property's matter). Conservation is then judged on characters:
+				// the non-blank characters of Text() are those of the pages.
+				var wantAll strings.Builder
+				for _, t := range texts {
+					wantAll.WriteString(t)
+				}
+				if sortedRunes(stripWS(txt)) != sortedRunes(stripWS(wantAll.String())) {
+					add("text-tokens", "Text(): tokens lost, repeated or invented: %s", diffTokens(want, got))
+				} else {
+					c.Count("text_token_split_across_layout_regions_(characters_conserved)", 1)
+				}
 			} else {
 				last := 0
 				for _, t := range got {
@@ -356,6 +368,12 @@ func observe(c *fw.Ctx, cs *Case, path string) []failure {
 		}
 	}
 	return fails
+}
+
+func sortedRunes(s string) string {
+	r := []rune(s)
+	sort.Slice(r, func(i, j int) bool { return r[i] < r[j] })
+	return string(r)
 }
 
 func fontTag(rd *reader.Reader, res core.Dict, name string) (string, bool) {
